@@ -5566,9 +5566,31 @@ namespace detail {
                     output_stack.push_back(std::move(tok));
                     break;
                 case token_kind::key:
-                case token_kind::pipe:
                     output_stack.push_back(std::move(tok));
                     break;
+                case token_kind::pipe:
+                {
+                    // A pipe binds less tightly than every operator: complete the operators to its left first
+                    auto it = operator_stack_.rbegin();
+                    while (it != operator_stack_.rend() && !(*it).is_lparen())
+                    {
+                        if ((*it).is_operator()) 
+                        {
+                            auto rhs = unwind_roperator(output_stack, *it);
+                            if (rhs.empty())
+                            {
+                                ec = jmespath_errc::syntax_error;
+                                return;
+                            }
+                            (*it).expression_->add_expression(resources.create_expression(function_expression(std::move(rhs))));
+                        }
+                        output_stack.push_back(std::move(*it));
+                        ++it;
+                    }
+                    operator_stack_.erase(it.base(), operator_stack_.end());
+                    output_stack.push_back(std::move(tok));
+                    break;
+                }
                 case token_kind::argument:
                     unwind_rparen(resources, output_stack, ec);
                     output_stack.push_back(std::move(tok));
